@@ -224,3 +224,110 @@ M("C20", "boundary-regenerated-per-field", "filepost.py",
   "    for field in iter_field_objects(fields):\n        boundary = boundary or choose_boundary()\n        body.write(f\"--{boundary}\\r\\n\".encode(\"latin-1\"))", rule="C20-R4")
 M("C20", "content-type-from-constant", "_request_methods.py",
   "            extra_kw[\"headers\"].setdefault(\"Content-Type\", content_type)", "            extra_kw[\"headers\"].setdefault(\"Content-Type\", \"multipart/form-data\")", rule="C20-R5")
+
+# --------------------------------------------------------------------------- C04
+M("C04", "increment-mutates-total", "util/retry.py",
+  "        total = self.total\n        if total is not None:\n            total -= 1\n",
+  "        if self.total is not None and self.total is not False:\n            self.total -= 1\n        total = self.total\n", rule="C04-R1")
+M("C04", "resend-with-pool-default-policy", "connectionpool.py",
+  "            return self.urlopen(\n                method,\n                url,\n                body,\n                headers,\n                retries,\n                redirect,\n                assert_same_host,",
+  "            return self.urlopen(\n                method,\n                url,\n                body,\n                headers,\n                self.retries,\n                redirect,\n                assert_same_host,", rule="C04-R2")
+M("C04", "status-retry-resends-before-increment", "connectionpool.py",
+  "            try:\n                retries = retries.increment(method, url, response=response, _pool=self)\n            except MaxRetryError:\n                if retries.raise_on_status:",
+  "            try:\n                retries.increment(method, url, response=response, _pool=self)\n            except MaxRetryError:\n                if retries.raise_on_status:", rule="C04-R2")
+M("C04", "new-drops-backoff-jitter", "util/retry.py",
+  "            backoff_jitter=self.backoff_jitter,\n", "", rule="C04-R3")
+M("C04", "new-drops-allowed-methods", "util/retry.py",
+  "            allowed_methods=self.allowed_methods,\n            status_forcelist", "            status_forcelist", rule="C04-R3")
+M("C04", "backoff-unclamped", "util/retry.py",
+  "        return float(max(0, min(self.backoff_max, backoff_value)))", "        return float(max(0, backoff_value))", rule="C04-R4")
+M("C04", "retry-after-not-clamped", "util/retry.py",
+  "        seconds = max(seconds, 0)\n\n        return seconds", "        return seconds", rule="C04-R4")
+M("C04", "retry-after-on-500", "util/retry.py",
+  "RETRY_AFTER_STATUS_CODES = frozenset([413, 429, 503])", "RETRY_AFTER_STATUS_CODES = frozenset([413, 429, 500, 503])", rule="C04-R5")
+M("C04", "is-retry-ignores-method-for-forcelist", "util/retry.py",
+  "        if not self._is_method_retryable(method):\n            return False\n\n        if self.status_forcelist and status_code in self.status_forcelist:\n            return True\n",
+  "        if self.status_forcelist and status_code in self.status_forcelist:\n            return True\n\n        if not self._is_method_retryable(method):\n            return False\n", rule="C04-R5")
+M("C04", "is-retry-ignores-respect-flag", "util/retry.py",
+  "            self.total\n            and self.respect_retry_after_header\n            and has_retry_after", "            self.total\n            and has_retry_after", rule="C04-R5")
+M("C04", "retries-false-wraps-error", "util/retry.py",
+  "        if self.total is False and error:\n            # Disabled, indicate to re-raise the error.\n            raise reraise(type(error), error, _stacktrace)\n",
+  "        if self.total is False and error and self._is_connection_error(error):\n            # Disabled, indicate to re-raise the error.\n            raise reraise(type(error), error, _stacktrace)\n", rule="C04-R6")
+M("C04", "read-error-ignores-protocolerror", "util/retry.py",
+  "        return isinstance(err, (ReadTimeoutError, ProtocolError))", "        return isinstance(err, ReadTimeoutError)", rule="C04-R7")
+M("C04", "other-branch-spends-nothing", "util/retry.py",
+  "        total = self.total\n        if total is not None:\n            total -= 1\n", "        total = self.total\n        if total is not None and not error:\n            total -= 1\n", rule="C04-R9")
+M("C04", "read-branch-does-not-spend-read", "util/retry.py",
+  "            elif read is not None:\n                read -= 1", "            elif read is not None:\n                pass", rule="C04-R9")
+M("C04", "method-gate-dropped", "util/retry.py",
+  "            if read is False or method is None or not self._is_method_retryable(method):", "            if read is False or method is None:", rule="C04-R10")
+M("C04", "post-in-default-allowed-methods", "util/retry.py",
+  "        [\"HEAD\", \"GET\", \"PUT\", \"DELETE\", \"OPTIONS\", \"TRACE\"]", "        [\"HEAD\", \"GET\", \"PUT\", \"POST\", \"DELETE\", \"OPTIONS\", \"TRACE\"]", rule="C04-R11")
+M("C04", "retry-after-always-respected", "util/retry.py",
+  "        if self.respect_retry_after_header and response:", "        if response:", rule="C04-R12")
+M("C04", "increment-returns-self-when-not-exhausted", "util/retry.py",
+  "        log.debug(\"Incremented Retry for (url='%s'): %r\", url, new_retry)\n\n        return new_retry",
+  "        log.debug(\"Incremented Retry for (url='%s'): %r\", url, new_retry)\n\n        return self if self.total is None else new_retry", rule="C04-R9")
+
+# --------------------------------------------------------------------------- C05
+M("C05", "manager-ignores-configured-retries-again", "poolmanager.py",
+  "retries = Retry.from_int(retries, redirect=redirect, default=conn.retries)", "retries = Retry.from_int(retries, redirect=redirect)", rule="C05-R1")
+M("C05", "pool-ignores-pool-default", "connectionpool.py",
+  "retries = Retry.from_int(retries, redirect=redirect, default=self.retries)", "retries = Retry.from_int(retries, redirect=redirect)", rule="C05-R1")
+M("C05", "303-guard-widened-to-302", "connectionpool.py",
+  "            if response.status == 303:\n                # Change the method according to RFC 9110, Section 15.4.4.\n                method = \"GET\"\n                # And lose the body not to transfer anything sensitive.\n                body = None",
+  "            if response.status in (302, 303):\n                # Change the method according to RFC 9110, Section 15.4.4.\n                method = \"GET\"\n                # And lose the body not to transfer anything sensitive.\n                body = None", rule="C05-R4")
+M("C05", "manager-303-keeps-body", "poolmanager.py",
+  "            kw[\"body\"] = None\n            kw[\"headers\"] = HTTPHeaderDict", "            kw[\"headers\"] = HTTPHeaderDict", rule="C05-R4")
+M("C05", "manager-303-keeps-content-headers", "poolmanager.py",
+  "            kw[\"headers\"] = HTTPHeaderDict(kw[\"headers\"])._prepare_for_method_change()\n", "", rule="C05-R4")
+M("C05", "manager-redirect-before-increment", "poolmanager.py",
+  "        kw[\"retries\"] = retries\n        kw[\"redirect\"] = redirect", "        kw[\"redirect\"] = redirect", rule="C0")
+M("C05", "manager-no-urljoin", "poolmanager.py",
+  "        redirect_location = urljoin(url, redirect_location)\n", "", rule="C05-R6")
+M("C05", "manager-swallows-maxretry", "poolmanager.py",
+  "            if retries.raise_on_redirect:\n                response.drain_conn()\n                raise\n            return response",
+  "            return response", rule="C05-R5")
+M("C05", "pool-raises-without-drain", "connectionpool.py",
+  "                if retries.raise_on_redirect:\n                    response.drain_conn()\n                    raise", "                if retries.raise_on_redirect:\n                    raise", rule="C05-R5")
+M("C05", "manager-lets-pool-follow", "poolmanager.py",
+  "        kw[\"assert_same_host\"] = False\n        kw[\"redirect\"] = False\n", "        kw[\"assert_same_host\"] = False\n        kw[\"redirect\"] = redirect\n", rule="C05-R3")
+M("C05", "redirect-flag-ignored-in-pool", "connectionpool.py",
+  "        redirect_location = redirect and response.get_redirect_location()\n        if redirect_location:\n            if response.status == 303:",
+  "        redirect_location = response.get_redirect_location()\n        if redirect_location:\n            if response.status == 303:", rule="C05-R3")
+M("C05", "retry-false-keeps-redirect-budget", "util/retry.py",
+  "        if redirect is False or total is False:\n            redirect = 0\n            raise_on_redirect = False",
+  "        if redirect is False:\n            redirect = 0\n            raise_on_redirect = False", rule="C05-R3")
+M("C05", "305-treated-as-redirect", "response.py",
+  "    REDIRECT_STATUSES = [301, 302, 303, 307, 308]", "    REDIRECT_STATUSES = [301, 302, 303, 305, 307, 308]", rule="C05-R7")
+M("C05", "method-change-keeps-content-type", "_collections.py",
+  "            \"Content-Type\",\n            \"Content-Length\",", "            \"Content-Length\",", rule="C05-R4")
+
+# --------------------------------------------------------------------------- C06
+M("C06", "strip-compares-without-lower", "poolmanager.py",
+  "                if header.lower() in retries.remove_headers_on_redirect:", "                if header in retries.remove_headers_on_redirect:", rule="C06-R2")
+M("C06", "resend-with-unstripped-mapping", "poolmanager.py",
+  "                    new_headers.pop(header, None)\n            kw[\"headers\"] = new_headers\n", "                    new_headers.pop(header, None)\n", rule="C06-R")
+M("C06", "same-host-ignores-scheme", "connectionpool.py",
+  "        return (scheme, host, port) == (self.scheme, self.host, self.port)", "        return (host, port) == (self.host, self.port)", rule="C06-R4")
+M("C06", "same-host-tested-on-original-url", "poolmanager.py",
+  "        if retries.remove_headers_on_redirect and not conn.is_same_host(\n            redirect_location\n        ):",
+  "        if retries.remove_headers_on_redirect and not conn.is_same_host(\n            url\n        ):", rule="C06-R1")
+M("C06", "cookie-not-in-defaults", "util/retry.py",
+  "        [\"Cookie\", \"Authorization\", \"Proxy-Authorization\"]", "        [\"Authorization\", \"Proxy-Authorization\"]", rule="C06-R3")
+M("C06", "policy-set-not-lowercased", "util/retry.py",
+  "        self.remove_headers_on_redirect = frozenset(\n            h.lower() for h in remove_headers_on_redirect\n        )",
+  "        self.remove_headers_on_redirect = frozenset(remove_headers_on_redirect)", rule="C06-R2")
+M("C06", "strip-only-on-scheme-downgrade", "poolmanager.py",
+  "        if retries.remove_headers_on_redirect and not conn.is_same_host(\n            redirect_location\n        ):",
+  "        if retries.remove_headers_on_redirect and u.scheme == \"https\" and not conn.is_same_host(\n            redirect_location\n        ):", rule="C06-R1")
+M("C06", "host-check-after-get-conn", "connectionpool.py",
+  "        if assert_same_host and not self.is_same_host(url):\n            raise HostChangedError(self, url, retries)\n",
+  "        if assert_same_host and redirect and not self.is_same_host(url):\n            raise HostChangedError(self, url, retries)\n", rule="C06-R6")
+M("C06", "pool-redirect-drops-assert-same-host", "connectionpool.py",
+  "                retries=retries,\n                redirect=redirect,\n                assert_same_host=assert_same_host,\n                timeout=timeout,\n                pool_timeout=pool_timeout,\n                release_conn=release_conn,\n                chunked=chunked,\n                body_pos=body_pos,\n                preload_content=preload_content,\n                decode_content=decode_content,\n                **response_kw,\n            )\n\n        # Check if we should retry the HTTP response.",
+  "                retries=retries,\n                redirect=redirect,\n                assert_same_host=False,\n                timeout=timeout,\n                pool_timeout=pool_timeout,\n                release_conn=release_conn,\n                chunked=chunked,\n                body_pos=body_pos,\n                preload_content=preload_content,\n                decode_content=decode_content,\n                **response_kw,\n            )\n\n        # Check if we should retry the HTTP response.", rule="C06-R6")
+M("C06", "strip-pops-first-match-only", "poolmanager.py",
+  "                    new_headers.pop(header, None)\n", "                    new_headers.pop(header, None)\n                    break\n", rule="C06-R1")
+M("C06", "same-host-port-default-missing", "connectionpool.py",
+  "            host = _normalize_host(host, scheme=scheme)\n", "            host = host.lower()\n", rule="C06-R4")
